@@ -962,6 +962,22 @@ func (ctx *EvalCtx) runSpecCall(fn *ssa.Function, recv *CV, argExprs []ast.Expr)
 	for _, a := range argExprs {
 		args = append(args, ctx.eval(a))
 	}
+	// a concrete value handed to an interface-typed parameter is boxed, exactly as the compiled call does
+	for i := range args {
+		if i >= len(fn.Params) || args[i].typ == nil {
+			continue
+		}
+		if _, want := types.Unalias(fn.Params[i].Type()).Underlying().(*types.Interface); !want {
+			continue
+		}
+		if _, have := types.Unalias(args[i].typ).Underlying().(*types.Interface); have {
+			continue
+		}
+		if b, ok := args[i].typ.(*types.Basic); ok && b.Kind() == types.UntypedNil {
+			continue
+		}
+		args[i] = CV{ctx.ex.box(ctx.state(), args[i].t, args[i].typ), fn.Params[i].Type()}
+	}
 	var res []CV
 	if ct := ctx.ex.W.contracts[fnKey(fn)]; ct != nil && ct.Function {
 		// a 'function' contract: the same uninterpreted function symbols the call rule uses
